@@ -26,10 +26,27 @@ func IndexTable(db objects.Store, tblSum []byte, tbl *objects.Table, logger logr
 	)
 	logger = logger.WithName("IndexTable")
 	logger.Info("indexing table", "sum", tblSum)
+	// the table may come from an untrusted source (a packfile)
+	if len(tbl.BlockIndices) != len(tbl.Blocks) {
+		return fmt.Errorf("table has %d blocks but %d block indices", len(tbl.Blocks), len(tbl.BlockIndices))
+	}
+	for _, k := range tbl.PK {
+		if int(k) >= len(tbl.Columns) {
+			return fmt.Errorf("primary key index %d out of range (%d columns)", k, len(tbl.Columns))
+		}
+	}
 	for i, sum := range tbl.Blocks {
 		blk, bb, err = objects.GetBlock(db, bb, sum)
 		if err != nil {
 			return fmt.Errorf("GetBlock: %v", err)
+		}
+		if len(blk) == 0 {
+			return fmt.Errorf("block %x is empty", sum)
+		}
+		for _, row := range blk {
+			if len(row) != len(tbl.Columns) {
+				return fmt.Errorf("block %x has a row with %d cells for %d columns", sum, len(row), len(tbl.Columns))
+			}
 		}
 		if len(tbl.PK) > 0 {
 			tblIdx[i] = slice.IndicesToValues(blk[0], tbl.PK)
